@@ -102,6 +102,22 @@ pub fn dict_guided(o: &mut PhonOracle, rng: &mut Rng, n: usize) -> Vec<(String, 
         }
     }
     let mut out = vec![];
+    // words that occur more than once in the data (within a table or across tables) are always included, whatever their
+    // length: they are what the duplicate suppression of the candidate list exists for
+    let mut seen: std::collections::HashMap<&String, usize> = std::collections::HashMap::new();
+    for w in o.tables.values().flatten() {
+        *seen.entry(w).or_insert(0) += 1;
+    }
+    let mut repeated: Vec<String> = seen.iter().filter(|(_, n)| **n > 1).map(|(w, _)| (*w).clone()).collect();
+    repeated.sort();
+    for w in repeated {
+        if let Some(sp) = romanise(&w) {
+            if o.is_dict_match(&sp, &w) {
+                out.push((sp, w));
+            }
+        }
+    }
+    let n = n + out.len();
     for w in picked {
         if out.len() >= n {
             break;
